@@ -114,6 +114,10 @@ def lattice(tier):
                     yield {'k': 'one', 'table': tname, 'kind': kind, 'field': i, 'value': None}
                     for v in field_values(f, tier):
                         yield {'k': 'one', 'table': tname, 'kind': kind, 'field': i, 'value': v}
+                        # the same value as the LAST one of a shorter list (trailing values left off, as the library
+                        # itself does for incon, timestep and generation-table lines)
+                        if i < len(fmts) - 1:
+                            yield {'k': 'one', 'table': tname, 'kind': kind, 'field': i, 'value': v, 'short': True}
     return g
 
 
@@ -142,7 +146,9 @@ def record_case(draw):
         else:
             n = draw(st.integers(0, w))
             vals.append(draw(st.text(alphabet='abcXYZ 019_-', min_size=n, max_size=n)))
-    return {'k': 'rec', 'table': tname, 'kind': kind, 'values': vals}
+    c = {'k': 'rec', 'table': tname, 'kind': kind, 'values': vals}
+    if len(vals) > 1 and draw(st.integers(0, 3)) == 0: c['keep'] = draw(st.integers(1, len(vals) - 1))     # a shorter list
+    return c
 
 
 @st.composite
@@ -152,7 +158,7 @@ def file_case(draw):
     remembers between records would show"""
     first = draw(record_case())
     tabs = tables()
-    recs = [{'kind': first['kind'], 'values': first['values']}]
+    recs = [{'kind': first['kind'], 'values': first['values'][:first.get('keep')]}]
     for _ in range(draw(st.integers(1, 5))):
         if draw(st.integers(0, 2)) == 0:
             r = dict(recs[draw(st.integers(0, len(recs) - 1))])          # the same record again
@@ -161,7 +167,7 @@ def file_case(draw):
                 c = draw(record_case())
                 if c['table'] == first['table']: break
             if c['table'] != first['table']: c = first
-            r = {'kind': c['kind'], 'values': c['values']}
+            r = {'kind': c['kind'], 'values': c['values'][:c.get('keep')]}
         recs.append(r)
     return {'k': 'file', 'table': first['table'], 'recs': recs}
 
@@ -260,7 +266,7 @@ def run_file(case, R):
             if len(parsed) != len(fmts):
                 R.fail('parse:wrong-field-count', '%s/%s' % (tname, kind)); return
             for j, f in enumerate(fmts):
-                judge_field(sub, r, tname, kind, j, f, vals[j], parsed[j], True)
+                judge_field(sub, r, tname, kind, j, f, vals[j] if j < len(vals) else None, parsed[j], True)
             if sub.findings:
                 wide = [spec_of(f)[2] for f, v in zip(fmts, vals)
                         if v is not None and spec_of(f)[2] != 'x' and len(('%%%s' % f) % v) > spec_of(f)[0]]
@@ -286,6 +292,11 @@ def run_case(case, R):
         vals = list(case['values'])
         targets = set(range(len(vals)))
     total = sum(spec_of(f)[0] for f in fmts)
+    keep = (case['field'] + 1) if case.get('short') else case.get('keep')
+    if keep is not None:
+        R.label('short-list')
+        vals = vals[:keep]
+        targets = set(t for t in targets if t < keep)
     # classification
     for i in targets:
         f, v = fmts[i], vals[i]
@@ -316,7 +327,7 @@ def run_case(case, R):
     sub.check(len(s) <= total, 'record:too-long',
               '%s/%s: record is %d columns, format has %d: %r' % (tname, kind, len(s), total, s))
     for j, f in enumerate(fmts):
-        judge_field(sub, p, tname, kind, j, f, vals[j], parsed[j], j in targets)
+        judge_field(sub, p, tname, kind, j, f, vals[j] if j < len(vals) else None, parsed[j], j in targets)
     if not sub.findings: return
     # root-cause bucketing: (a) a format whose declared width is not positive is mis-sliced by the
     # parser whatever is written; (b) a value wider than its columns written without a guard;
